@@ -252,3 +252,48 @@ package stack
 //@   at_call HandlePacket requires r.ref != nil && recv == r.ref.ep && r.NetProto == protocol && r.ref == ref && r.LocalAddress == dst && r.RemoteAddress == src
 //@   ensures ghost(netHandled) == old(ghost(netHandled)) || ghost(netHandled) == old(ghost(netHandled)) + 1
 //@   modifies everything(), ghost(netHandled)
+
+// ---------------------------------------------------------------------------
+// C09: registration in the demultiplexer. Representation invariant (established by
+// newTransportDemuxer, which ranges over maps and is not verified): no nil table, and
+// different tables hold different maps.
+//@ define dmxOK(d) = d != nil && forallkey(k, d.protocol, implies(has(d.protocol, k), d.protocol[k] != nil && d.protocol[k].endpoints != nil))
+//@ define epsAt(d, n, p) = d.protocol[protocolIDs{n, p}]
+//@ define sameAt(m, id) = has(m, id) == old(has(m, id)) && m[id] == old(m[id])
+
+// singleRegisterEndpoint: an identifier already present is refused and nothing changes;
+// otherwise it is bound to ep; no other identifier of that table is touched.
+//@ func (*transportDemuxer).singleRegisterEndpoint props C09
+//@   requires dmxOK(d)
+//@   ensures implies(!has(d.protocol, protocolIDs{netProto, protocol}), result == nil && sameAt(epsAt(d, netProto, protocol).endpoints, id))
+//@   ensures implies(has(d.protocol, protocolIDs{netProto, protocol}) && old(has(epsAt(d, netProto, protocol).endpoints, id)), result != nil && sameAt(epsAt(d, netProto, protocol).endpoints, id))
+//@   ensures implies(has(d.protocol, protocolIDs{netProto, protocol}) && !old(has(epsAt(d, netProto, protocol).endpoints, id)), result == nil && has(epsAt(d, netProto, protocol).endpoints, id) && epsAt(d, netProto, protocol).endpoints[id] == ep)
+//@   ensures forallkey(k, epsAt(d, netProto, protocol).endpoints, implies(k != id, sameAt(epsAt(d, netProto, protocol).endpoints, k)))
+//@   modifies entries(d.protocol[protocolIDs{netProto, protocol}].endpoints)
+
+// unregisterEndpoint removes id from the table of every listed network protocol and touches
+// nothing else: no other identifier, and no table that is not listed.
+//@ define dmxOthersKept(d, id) = forallkey(p, d.protocol, implies(has(d.protocol, p), forallkey(k, d.protocol[p].endpoints, implies(k != id, sameAt(d.protocol[p].endpoints, k)))))
+//@ func (*transportDemuxer).unregisterEndpoint props C09
+//@   requires dmxOK(d)
+//@   ensures forall(j, 0, len(netProtos), implies(has(d.protocol, protocolIDs{netProtos[j], protocol}), !has(epsAt(d, netProtos[j], protocol).endpoints, id)))
+//@   ensures dmxOthersKept(d, id)
+//@   ensures forallkey(p, d.protocol, implies(has(d.protocol, p) && forall(j, 0, len(netProtos), !has(d.protocol, protocolIDs{netProtos[j], protocol}) || d.protocol[p].endpoints != epsAt(d, netProtos[j], protocol).endpoints), sameAt(d.protocol[p].endpoints, id)))
+//@   loop 1 invariant forall(j, 0, rangeindex + 1, implies(has(d.protocol, protocolIDs{netProtos[j], protocol}), !has(epsAt(d, netProtos[j], protocol).endpoints, id)))
+//@   loop 1 invariant dmxOthersKept(d, id)
+//@   loop 1 invariant forallkey(p, d.protocol, implies(has(d.protocol, p) && forall(j, 0, rangeindex + 1, !has(d.protocol, protocolIDs{netProtos[j], protocol}) || d.protocol[p].endpoints != epsAt(d, netProtos[j], protocol).endpoints), sameAt(d.protocol[p].endpoints, id)))
+//@   modifies mapfamily(map[TransportEndpointID]TransportEndpoint)
+
+// registerEndpoint binds id to ep in the table of every listed network protocol, or - when one
+// of them already holds id - fails and leaves every table exactly as it was (the partial
+// registration is rolled back, and nobody else's binding is disturbed). Other identifiers are
+// never touched.
+//@ func (*transportDemuxer).registerEndpoint props C09
+//@   requires dmxOK(d)
+//@   ensures dmxOthersKept(d, id)
+//@   ensures implies(result != nil, forallkey(p, d.protocol, implies(has(d.protocol, p), sameAt(d.protocol[p].endpoints, id))))
+//@   ensures implies(result == nil, forall(j, 0, len(netProtos), implies(has(d.protocol, protocolIDs{netProtos[j], protocol}), has(epsAt(d, netProtos[j], protocol).endpoints, id) && epsAt(d, netProtos[j], protocol).endpoints[id] == ep)))
+//@   loop 1 invariant forall(j, 0, rangeindex + 1, implies(has(d.protocol, protocolIDs{netProtos[j], protocol}), has(epsAt(d, netProtos[j], protocol).endpoints, id) && epsAt(d, netProtos[j], protocol).endpoints[id] == ep && !old(has(epsAt(d, netProtos[j], protocol).endpoints, id))))
+//@   loop 1 invariant dmxOthersKept(d, id)
+//@   loop 1 invariant forallkey(p, d.protocol, implies(has(d.protocol, p) && forall(j, 0, rangeindex + 1, !has(d.protocol, protocolIDs{netProtos[j], protocol}) || d.protocol[p].endpoints != epsAt(d, netProtos[j], protocol).endpoints), sameAt(d.protocol[p].endpoints, id)))
+//@   modifies mapfamily(map[TransportEndpointID]TransportEndpoint)
